@@ -40,6 +40,18 @@
 #include <utility>
 #include <vector>
 
+#ifdef PGM_INDEX_VERIF
+namespace pgm::verif {
+/** A skip taken by MultidimensionalPGMIndex's range iterator, recorded when a harness sets jump_log. */
+struct JumpEvent {
+    uint64_t from;    ///< code at which the miss threshold was exceeded
+    uint64_t bigmin;  ///< the code computed by bigmin()
+    size_t landing;   ///< index in the sorted codes from which the scan resumes
+};
+inline thread_local std::vector<JumpEvent> *jump_log = nullptr;
+}
+#endif
+
 namespace pgm {
 
 /** Computes the smallest integral value not less than x / y, where y must be a positive integer. */
@@ -70,6 +82,9 @@ template<typename K, size_t Epsilon, size_t EpsilonRecursive = 4, typename Float
 class CompressedPGMIndex {
     static_assert(Epsilon > 0);
     struct CompressedLevel;
+#ifdef PGM_INDEX_VERIF
+    friend struct pgm::verif::Access;
+#endif
 
     size_t n;                             ///< The number of elements in the indexed data.
     K first_key;                          ///< The smallest element in the data.
@@ -512,6 +527,9 @@ public:
  */
 template<typename K, size_t Epsilon = 64, typename Floating = float>
 class EliasFanoPGMIndex {
+#ifdef PGM_INDEX_VERIF
+    friend struct pgm::verif::Access;
+#endif
 protected:
     static_assert(Epsilon > 0);
 
@@ -888,6 +906,9 @@ private:
  */
 template<uint8_t Dimensions, typename T, size_t Epsilon, size_t EpsilonRecursive = 4, typename Floating = float>
 class MultidimensionalPGMIndex {
+#ifdef PGM_INDEX_VERIF
+    friend struct pgm::verif::Access;
+#endif
     std::vector<T> data;
     PGMIndex<T, Epsilon, EpsilonRecursive, Floating> pgm;
 
@@ -1092,10 +1113,18 @@ private:
                 }
                 else if (++miss > miss_threshold) {
                     miss = 0;
+#ifdef PGM_INDEX_VERIF
+                    auto verif_from = uint64_t(*it);
+#endif
                     auto bmin = bigmin(*it, zmin, zmax);
                     auto range = super->pgm.search(bmin);
                     it = std::upper_bound(super->data.begin() + range.lo, super->data.begin() + range.hi, bmin);
                     --it;
+#ifdef PGM_INDEX_VERIF
+                    if (verif::jump_log)
+                        verif::jump_log->push_back({verif_from, uint64_t(bmin),
+                                                    size_t(std::next(it) - super->data.begin())});
+#endif
                 }
                 ++it;
             }
